@@ -162,6 +162,7 @@ class BookRun:
         self.cfg = cfg
         self.now = cfg["t0"]
         self.books = [core.OrderBook(cfg["t0"], cfg["tick"], cfg["trading"])]
+        self.twins = []       # (book loaded a second time from the same snapshot and never driven, what it showed when loaded)
 
     def apply(self, l, want_exc, scratch):
         op = l["op"]
@@ -176,6 +177,10 @@ class BookRun:
             self.books[0].save_json_snapshot(p, not pretty)     # saving over an existing snapshot replaces it
             self.books[0].save_json_snapshot(p, pretty)
             nb = core.order_book_from_json(p)
+            if not self.twins:
+                # the same unmodified file loaded once more: two loads give two independent books
+                tw = core.order_book_from_json(p)
+                self.twins.append((tw, book_view(tw)))
             os.remove(p)
             if len(self.books) < 3:
                 self.books.append(nb)
@@ -272,6 +277,13 @@ def replay_book_line(cfg, idx, v, S):
             d = first_diff(want, got, "py")
             if d:
                 problem = "what Python shows for copy %d (0 = original, >0 = reloaded from a snapshot) differs from PyView at %s" % (bi, d)
+                break
+    if problem is None:
+        for tw, seen in run.twins:
+            d = first_diff(seen, book_view(tw), "twin")
+            if d:
+                problem = ("a second book loaded from the same snapshot file changed although only the first one was driven "
+                           "(two loads of a file must give two independent books): %s" % d)
                 break
     if problem is None and v.get("drain") and not (cfg.get("xdir") and cfg.get("xevery") and idx % cfg["xevery"] == 0):
         # drain probe: market orders for the whole resting volume spell out the queue order
